@@ -672,3 +672,64 @@ func zzH_C12_sibling_views_independent(t *zzT) {
 	t.Assert(inA && bytes.Equal(ga, v), "the writing view reads its own write")
 	t.Reach("end")
 }
+
+// C12.b with several live snapshots: "restoring a snapshot returns exactly the staged state at the time of
+// the snapshot" for any order of Snapshot / DeleteSnapshot / RestoreSnapshot, not only the strictly nested
+// one the state machine uses. A history of S steps, each one of: a staged write, Snapshot, DeleteSnapshot of
+// a live snapshot, RestoreSnapshot of a live snapshot. The reference keeps (id -> staged state) for the live
+// snapshots. Ids handed out must be distinct from every live id; a restore yields the reference state of
+// that id and a restored / deleted id cannot be restored again.
+// (seed C12-7 took the id from len(snapshots): after releasing an older snapshot a new one overwrote a live one.)
+//
+//zz:opt loop=32 require=restored-non-nested
+//zz:quick N=1 S=5 VLO=1 KLO=2 KHI=2 QLO=1 QHI=1
+//zz:thorough N=1 S=6 VLO=1 KLO=2 KHI=2 QLO=1 QHI=1 budget=1800s
+func zzH_C12_snapshot_history(t *zzT) {
+	sc := zzBuild(t, 1)
+	type live struct {
+		id  int
+		ref *zzRef
+		seq int
+	}
+	var lives []live
+	S := t.Param("S", 5)
+	nonNested := false
+	seq := 0
+	for step := 0; step < S; step++ {
+		kinds := 2
+		if len(lives) > 0 {
+			kinds = 4
+		}
+		switch t.Choice(t.Name("step", step), kinds) {
+		case 0:
+			sc.zzOp(t, step)
+		case 1:
+			id := sc.root.Snapshot()
+			for _, l := range lives {
+				t.Assert(l.id != id, "a new snapshot id differs from every live snapshot id")
+			}
+			seq++
+			lives = append(lives, live{id, sc.ref.clone(), seq})
+		case 2:
+			w := t.Choice(t.Name("delete", step), len(lives))
+			sc.root.DeleteSnapshot(lives[w].id)
+			if w != len(lives)-1 {
+				nonNested = true
+			}
+			lives = append(lives[:w], lives[w+1:]...)
+		default:
+			w := t.Choice(t.Name("restore", step), len(lives))
+			l := lives[w]
+			t.Assert(sc.root.RestoreSnapshot(l.id) == nil, "a live snapshot can be restored")
+			sc.ref = l.ref.clone()
+			got := sc.root.Iterate([]byte{}, -1, false)
+			t.Assert(zzSameList(got, sc.ref.ordered(zzAll, -1, false), 0), "restoring a snapshot returns exactly the staged state at the time of that snapshot")
+			t.Assert(sc.root.RestoreSnapshot(l.id) != nil, "a restored snapshot id is gone")
+			lives = append(lives[:w], lives[w+1:]...)
+			if nonNested {
+				t.Reach("restored-non-nested")
+			}
+		}
+	}
+	t.Reach("end")
+}
